@@ -230,6 +230,14 @@ func (t *simTransport) Send(ctx context.Context, d []byte) ([]byte, error) {
 				reply = reply[:k]
 			}
 		}
+	case "truncpayload":
+		if reply != nil && len(reply) >= 16 {
+			k := atoi(arg)
+			if 16+k < len(reply) {
+				reply = append([]byte{}, reply[:16+k]...)
+				reply[14], reply[15] = byte(k), byte(k>>8)
+			}
+		}
 	case "badsig":
 		if len(reply) > 0 {
 			reply = append([]byte{}, reply...)
@@ -793,6 +801,32 @@ func runStepM(st *scnState, step *scnStep, withMetrics bool) (res stepResult) {
 			if err == nil {
 				res.Value = fmt.Sprintf("inlet=%v cpu=%v baseboard=%v", info.Inlet, info.CPU, info.Baseboard)
 			}
+		case "sensorseq":
+			// one reader, polled once per entry of Script (each entry: the Get Sensor Reading response bytes, hex)
+			fsr := &ipmi.FullSensorRecord{}
+			if err := fsr.DecodeFromBytes(unhex(step.FSR), gopacket.NilDecodeFeedback); err != nil {
+				res.Err = "fsrdecode"
+				return
+			}
+			reader, err := bmc.NewSensorReader(fsr)
+			if err != nil {
+				res.Err = "noreader"
+				return
+			}
+			var parts []string
+			polls := step.Script
+			t.script = nil
+			for _, rd := range polls {
+				st.b.Sensors = map[uint8][]byte{fsr.Number: unhex(rd)}
+				v, err := reader.Read(ctx, session)
+				if err != nil {
+					parts = append(parts, classifyErr(err))
+				} else {
+					parts = append(parts, fmt.Sprintf("%.17g", v))
+				}
+			}
+			res.Err = "nil"
+			res.Value = strings.Join(parts, " ")
 		case "sensor":
 			fsr := &ipmi.FullSensorRecord{}
 			if err := fsr.DecodeFromBytes(unhex(step.FSR), gopacket.NilDecodeFeedback); err != nil {
